@@ -103,14 +103,29 @@ def recomposed_task(task):
                 if r == tree.root_node_name:
                     out = sampler.sample_tree(tree)
                     return [(gen.key_str(gen.tree_key(out)), 1.0)]
-                sub = tree.get_subtree(r)
-                parent = tree.get_parent(r)
-                parent = None if parent == tree.root_node_name else parent
-                tree.remove_subtree(sub)
-                for dp in tree.outliers:
-                    tree.remove_data_point_from_outliers(dp)
-                    sub.add_data_point_to_outliers(dp)
-                rest_forest, rest_nodes = gen.tree_to_forest(tree)
+                # the block is extracted *abstractly* (no Tree extraction / pruning API): clones under r form the
+                # block together with every outlier; the rest keeps the remaining clones and no outliers
+                fr, nodes = gen.tree_to_forest(tree)
+                ridx = nodes.index(r)
+                in_block = set()
+
+                def mark(i):
+                    in_block.add(i)
+                    for ch in fr.children(i):
+                        mark(ch)
+
+                mark(ridx)
+                blk = sorted(in_block)
+                rest_idx = [i for i in range(fr.K) if i not in in_block]
+                sub_forest = gen.AForest([fr.blocks[i] for i in blk],
+                                         [None if (fr.parent[i] is None or fr.parent[i] not in in_block)
+                                          else blk.index(fr.parent[i]) for i in blk], fr.outliers)
+                rest_forest = gen.AForest([fr.blocks[i] for i in rest_idx],
+                                          [None if fr.parent[i] is None else rest_idx.index(fr.parent[i]) for i in rest_idx], [])
+                rest_nodes = list(range(len(rest_idx)))
+                pr = fr.parent[ridx]
+                parent = None if pr is None else rest_idx.index(pr)
+                sub, _sn = gen.build_tree(sub_forest, data)
                 swarm = sampler.sample_swarm(sub)
                 ws = []
                 keys = []
